@@ -187,8 +187,10 @@ Section Steps.
     pose proof (Cur_write_loc K b true E None m E [] m r (Some v) C0 Hiv) as C1.
     specialize (C1 (fun t Ht => ltac:(injection Ht as <-; exact Hgood))).
     assert (Hh : forall p j x, r = RField p j -> get m p = Some x ->
-               (o_box x <> BNotYet \/ o_vst x = VDropping) /\ (o_vst x <> VDropping \/ None = Some p) /\ o_vst x <> VUninit).
-    { intros p j x -> Hx. cbn in Hidx. destruct Hidx as (y & Hy & _ & Hb & Hvd & Hnu). assert (y = x) by congruence. subst. auto. }
+               (o_box x <> BNotYet \/ o_vst x = VDropping) /\ (o_vst x <> VDropping \/ None = Some p) /\ o_vst x <> VUninit /\
+               (inD m p = false \/ o_vst x = VDropped \/ None = Some p)).
+    { intros p j x -> Hx. cbn in Hidx. destruct Hidx as (y & Hy & _ & Hb & Hvd & Hnu & Hdd). assert (y = x) by congruence. subst.
+      repeat split; auto. destruct (inD m p); auto. }
     specialize (C1 Hh).
     destruct (read_loc r m) as [t|] eqn:Hr; cbn [ol app] in C1; [|cbn [fst snd]; fin C1].
     assert (Hown : own_ok (write_loc r (Some v) m) t).
@@ -258,7 +260,7 @@ Section Steps.
       { rewrite <- Hrl. apply (Cur_write_loc K b true E (Some o) m E [] m (RField o j) None C0).
         - cbn. eauto.
         - discriminate.
-        - intros p j' y [= <- <-] Hy. assert (y = x) by congruence. subst. split; [auto|]. split; [auto | congruence]. }
+        - intros p j' y [= <- <-] Hy. assert (y = x) by congruence. subst. split; [auto|]. split; [auto|]. split; [congruence | auto]. }
       set (x1 := x <| o_fields ::= <[j := None]> |>).
       assert (Hx1 : get m1 o = Some x1) by (apply get_upd_eq, Hx).
       (* what the post-condition needs from a final state *)
@@ -338,7 +340,7 @@ Section Steps.
         assert (C2 : Cur K b true E (Some o) m (t :: E) [] m3).
         { pose proof (Cur_set_cleaner K b true E (Some o) m E [] m2 o x2 None C1 Hx2) as C2.
           assert (Hc2 : o_cleaner x2 = Some t) by (unfold x2; cbn; congruence). rewrite Hc2 in C2.
-          apply C2; [congruence | discriminate | right; unfold x2; cbn; congruence | right; reflexivity | unfold x2; cbn; congruence]. }
+          apply C2; [congruence | discriminate | right; unfold x2; cbn; congruence | right; reflexivity | unfold x2; cbn; congruence | auto]. }
         set (x3 := x2 <| o_cleaner := None |>).
         assert (Hx3 : get m3 o = Some x3) by (apply get_upd_eq, Hx2).
         assert (Hown : own_ok m3 t).
@@ -716,7 +718,7 @@ Section Steps.
       assert (Df' : Cur K bb nn E None m2 E [] mf).
       { apply (Cur_close_ex K _ _ _ o _ _ _ _ Df). intros y y' Hy Hy'. assert (y = x2) by congruence. subst y.
         split; [congruence|]. split; [congruence|]. split; [congruence|]. split; [apply Hvf, Hy'|].
-        intros _ [Hp|[Hp _]]; [lia | congruence]. }
+        split; [intros _ [Hp|[Hp _]]; [lia | congruence] | congruence]. }
       pose proof (Cur_join K _ _ _ _ _ _ _ _ _ _ _ _ _ C2 Df') as J. rewrite andb_true_l in J. exact J. }
     destruct r; try triv_post.
     - (* the value was dropped: free the box *)
